@@ -119,14 +119,14 @@ theorem evalSteps_sublist (env : XPath.Env) : ∀ (steps : List Step) (ks r : Li
       · cases h
       · exact evalSteps_sublist env rest _ r (normalize_sublist _ _) h
 
-theorem applyFunc_not_nodes (env : XPath.Env) (c : Ctx) (name : String) (vs : List Value) (ks : List Key) :
-    applyFunc env c name vs ≠ .ok (.nodes ks) := by
-  intro h
+/-- the only node-set a core function returns is the empty one (id() on a document without DOCTYPE) -/
+theorem applyFunc_nodes_empty (env : XPath.Env) (c : Ctx) (name : String) (vs : List Value) (ks : List Key)
+    (h : applyFunc env c name vs = .ok (.nodes ks)) : ks = [] := by
   unfold applyFunc at h
-  split at h <;> first
-    | (simp at h; done)
-    | (split at h <;> simp at h; done)
-    | (split at h <;> (try split at h) <;> simp at h)
+  split at h
+  all_goals (repeat' split at h)
+  all_goals (first | (simp at h; done) | (simp at h; exact h.symm) |
+    ((try dsimp only at h); by_cases hd : env.doc.hasDoctype = true <;> simp [hd] at h <;> first | exact h | exact h.symm) | simp_all)
 
 /-- whatever expression produced it: a node-set value lists nodes of the document in document order,
     each at most once -/
@@ -142,7 +142,7 @@ theorem eval_nodeset_normal (env : XPath.Env) (e : Expr) (c : Ctx) (ks : List Ke
     repeat' split at h
     all_goals first
       | (simp at h; done)
-      | exact absurd h (applyFunc_not_nodes _ _ _ _ _)
+      | (have := applyFunc_nodes_empty _ _ _ _ _ h; subst this; exact List.nil_sublist _)
   | filter e preds =>
     simp only [eval] at h
     cases hE : eval env e c with
@@ -200,7 +200,7 @@ theorem filter_counts_doc_order (env : XPath.Env) (e p : Expr) (c : Ctx) (ks : L
   cases hF : filterOne env p ks 1 ks.length <;> simp [hF]
 
 /-- non-vacuity: a two-element document has a non-trivial order -/
-example : allKeys ⟨[.elem ⟨none, ['a']⟩ [] [(⟨none, ['x']⟩, ['1'])] [.text ['t']]]⟩ = [[], [2], [2, 1, 0], [2, 2]] := by
+example : allKeys { kids := [.elem ⟨none, ['a']⟩ [] [(⟨none, ['x']⟩, ['1'])] [.text ['t']]] } = [[], [2], [2, 1, 0], [2, 2]] := by
   decide
 
 end XmlRs.C07
